@@ -336,7 +336,7 @@ def run(env, rep):
         C01.run(env, PrefixReport(rep, "C01.", "C02.R6.", only=("C01.R1", "C01.R2", "C01.R3")))
     from . import C07
     if wants(rep, "C02.R7"):
-        C07.run(env, PrefixReport(rep, "C07.", "C02.R7.", only=("C07.R3", "C07.R6")))
+        C07.run(env, PrefixReport(rep, "C07.", "C02.R7.", only=("C07.R3", "C07.R5", "C07.R6")))
     # the reader side the exchange rests on: partial messages per chunk stream (forced type-0 continuation chunks included),
     # suspension without effect, timestamp rules
     if wants(rep, "C02.R8"):
